@@ -44,6 +44,7 @@ func (w *world) doBatch(op opT) string {
 		}
 	}
 	w.takeDisc()
+	w.noteRelayed()
 	inboxBefore := map[int]int{}
 	for _, cl := range w.cl {
 		cl.script = nil
